@@ -295,7 +295,7 @@ func writeStream(w io.Writer, schema *arrow.Schema, batches []arrow.RecordBatch)
 func withMeta(schema *arrow.Schema, cols []arrow.Array, rows int64, kv map[string]string) arrow.RecordBatch {
 	keys, vals := []string{}, []string{}
 	for _, k := range []string{vgirpc.MetaMethod, vgirpc.MetaRequestVersion, vgirpc.MetaRequestID,
-		vgirpc.MetaLogLevel, vgirpc.MetaProtocolVersion, vgirpc.MetaCancel} {
+		vgirpc.MetaLogLevel, vgirpc.MetaProtocolVersion, vgirpc.MetaCancel, vgirpc.MetaLocation} {
 		if v, ok := kv[k]; ok {
 			keys = append(keys, k)
 			vals = append(vals, v)
@@ -350,7 +350,13 @@ func (s *stepper) writeCall(c *call) error {
 	case "unary":
 		meta[vgirpc.MetaMethod] = c.m
 		sc.Out = replay.Str(a, "o")
-		if replay.Str(a, "pm") == "mismatch" {
+		if replay.Str(a, "pm") == "zrowloc" {
+			// zero-row batch carrying vgi_rpc.location: exempt from ReadRequest's row check
+			schema = arrow.NewSchema([]arrow.Field{{Name: "script", Type: arrow.BinaryTypes.String}, {Name: "x", Type: arrow.PrimitiveTypes.Int64}}, nil)
+			cols = []arrow.Array{strCol(), i64Col()}
+			rows = 0
+			meta[vgirpc.MetaLocation] = "https://storage.invalid/obj-" + strconv.Itoa(s.rng.Intn(1000))
+		} else if replay.Str(a, "pm") == "mismatch" {
 			switch s.rng.Intn(3) {
 			case 0: // retyped
 				schema = arrow.NewSchema([]arrow.Field{{Name: "script", Type: arrow.BinaryTypes.String}, {Name: "x", Type: arrow.BinaryTypes.String}}, nil)
